@@ -537,3 +537,163 @@ def replay_args(v):
     if v["key"] == "c07.poll_next.transport_error_not_returned":
         return ("c07_reset_inside_frame", [])
     return _replay_two(v)
+
+
+# ------------------------------------------------------------------------------------------------
+# BufRecvStream::poll_read — the lowest layer: the transport's answer is passed on as it is
+
+def check_poll_read(L, tier, log, samples):
+    """One call of BufRecvStream::poll_read over every transport answer (pending, a chunk, end of stream, stream terminated
+    with ANY code, connection error, unknown error): a chunk is appended to the buffer and Ok(false) returned; the end of
+    the stream sets eos and returns Ok(true); EVERY error is returned as that very error - in particular a reset is never
+    turned into a clean end of stream (which, inside a frame, the frame layer would turn into the connection error
+    H3_FRAME_ERROR), whatever its code."""
+    SEI = "quic::StreamErrorIncoming"
+
+    def c_transport(ex, st, key, argv, dest_ty, raw):
+        inner = C.payload_type(dest_ty, "Ready") or "std::result::Result<std::option::Option<<S as quic::RecvStream>::Buf>, quic::StreamErrorIncoming>"
+        opt = C.payload_type(inner, "Ok") or "std::option::Option<<S as quic::RecvStream>::Buf>"
+
+        def mk(kind):
+            def ap(ex, st, a):
+                st.world["transport"] = kind
+                if kind == "pending":
+                    return ex.make_enum(dest_ty, "Pending")
+                if kind == "data":
+                    ch = Obj("<S as quic::RecvStream>::Buf")
+                    ch.attrs["tag"] = "transport_chunk"
+                    return ex.make_enum(dest_ty, "Ready", [ex.make_enum(inner, "Ok", [ex.make_enum(opt, "Some", [ch])])])
+                if kind == "fin":
+                    return ex.make_enum(dest_ty, "Ready", [ex.make_enum(inner, "Ok", [ex.make_enum(opt, "None")])])
+                if kind == "reset":
+                    code = z3.BitVec("reset_code", 64)
+                    e = ex.make_enum(SEI, "StreamTerminated", [code])
+                elif kind == "conn":
+                    e = ex.make_enum(SEI, "ConnectionErrorIncoming", [Obj("quic::ConnectionErrorIncoming")])
+                else:
+                    e = ex.make_enum(SEI, "Unknown", [Obj("Box<dyn Error>")])
+                e.attrs["tag"] = "transport_error:" + kind
+                return ex.make_enum(dest_ty, "Ready", [ex.make_enum(inner, "Err", [e])])
+            return ap
+        kinds = ("pending", "data", "fin", "reset", "conn", "unknown")
+        return [Case(None if i == 0 else z3.BoolVal(True), mk(k)) for i, k in enumerate(kinds)]
+
+    def c_push(ex, st, key, argv, dest_ty, raw):
+        def ap(ex, st, a):
+            st.effects.append(("push_bytes", C.deref(a[1]).attrs.get("tag") if isinstance(C.deref(a[1]), Obj) else None))
+            return UNIT
+        return [Case(None, ap)]
+
+    def c_code_eq(ex, st, key, argv, dest_ty, raw):
+        # `Code == u64` / `u64 == Code`: numeric comparison of the code's value
+        def ap(ex, st, a):
+            vals = []
+            for x in a:
+                x = C.deref(x)
+                if isinstance(x, Obj):
+                    x = E.get_field(x, (None, 0)) if E.get_field(x, (None, 0)) is not None else ex.field(x, None, 0, "u64").v
+                vals.append(x)
+            r = vals[0] == vals[1]
+            return z3.Not(r) if key.endswith("::ne") else r
+        return [Case(None, ap)]
+    con = [
+        (r"^S as RecvStream::poll_data$", c_transport),
+        (r"^BufList::push_bytes$", c_push),
+        (r"^Code as PartialEq::(eq|ne)$|^u64 as PartialEq::(eq|ne)$", c_code_eq),
+    ] + c08.base_contracts()
+    ex = E.make_executor(L, [], con)
+    st = State()
+    import re as _re
+    fn = ex.find_fn(r"^stream::<impl[^>]*>::poll_read$ @@ ^&mut BufRecvStream")
+    text = "\n".join(s_ for b in fn.blocks.values() for s_ in b.stmts)
+    m = _re.search(r"\(\(\*_1\)\.(\d+): bool\)", text)
+    brs = Obj("stream::BufRecvStream<S, B>")
+    eos0 = z3.Bool("eos_before")
+    eos_idx = int(m.group(1)) if m else None
+    if eos_idx is not None:
+        brs.fields[(None, eos_idx)] = Cell(eos0)
+    st.world["brs"] = Cell(brs)
+    E.call(ex, st, r"^stream::<impl[^>]*>::poll_read$ @@ ^&mut BufRecvStream", [Ref(st.world["brs"]), Ref(Cell(Obj("Context")))])
+    outs = E.collect(ex, st)
+    viols = []
+    wit = {"chunk_buffered": False, "end_recorded": False, "reset_passed_on": False, "pending": False}
+    queries = 0
+    for s, ret in outs:
+        if ret == ("panic",):
+            viols.append({"key": "c07.poll_read.panic", "what": "BufRecvStream::poll_read can panic", "model": {}})
+            continue
+        t = s.world.get("transport")
+        pend = ret.discr.as_long() == 1
+        res = None if pend else E.get_field(ret, ("Ready", 0))
+        pushes = [e for e in s.effects if e[0] == "push_bytes"]
+        if t == "pending":
+            if not pend or pushes:
+                viols.append({"key": "c07.poll_read.answer_changed", "what": "the transport is pending but poll_read does not return Pending", "model": {}})
+            else:
+                wit["pending"] = True
+            continue
+        if pend:
+            viols.append({"key": "c07.poll_read.answer_changed", "what": "poll_read returns Pending although the transport answered", "model": {"transport": t}})
+            continue
+        is_err = res.discr.as_long() == 1
+        if t in ("reset", "conn", "unknown"):
+            e = E.get_field(res, ("Err", 0)) if is_err else None
+            if not is_err or not isinstance(e, Obj) or e.attrs.get("tag") != "transport_error:" + t or pushes:
+                mm = ex.model(s, z3.BoolVal(True))
+                code = mm.eval(z3.BitVec("reset_code", 64), True).as_long() if t == "reset" else None
+                viols.append({"key": "c07.poll_read.stream_error_not_passed_on",
+                              "what": "a transport stream error (e.g. the peer's reset) is not returned as that error by BufRecvStream::poll_read: "
+                                      "a reset read as a clean end of stream makes the frame layer report a truncated frame, i.e. a connection error",
+                              "model": {"transport": t, "reset_code": code}})
+            elif t == "reset":
+                queries += 1
+                got = E.get_field(e, ("StreamTerminated", 0))
+                if got is None or ex.feasible(s, got != z3.BitVec("reset_code", 64)):
+                    viols.append({"key": "c07.poll_read.stream_error_not_passed_on", "what": "the reset code is changed", "model": {"transport": t}})
+                else:
+                    wit["reset_passed_on"] = True
+            continue
+        if is_err:
+            viols.append({"key": "c07.poll_read.answer_changed", "what": "poll_read returns an error the transport did not report", "model": {"transport": t}})
+            continue
+        val = E.get_field(res, ("Ok", 0))
+        if t == "data":
+            queries += 1
+            if pushes != [("push_bytes", "transport_chunk")] or ex.feasible(s, val):
+                viols.append({"key": "c07.poll_read.answer_changed", "what": "a chunk from the transport is not buffered exactly once / is reported as the end", "model": {}})
+            else:
+                wit["chunk_buffered"] = True
+        if t == "fin":
+            post = s.world["brs"].v.fields[(None, eos_idx)].v if eos_idx is not None else None
+            queries += 1
+            if pushes or ex.feasible(s, z3.Not(val)) or post is None or ex.feasible(s, z3.Not(post)):
+                viols.append({"key": "c07.poll_read.answer_changed", "what": "the end of the stream is not reported as Ok(true) with eos recorded", "model": {}})
+            else:
+                wit["end_recorded"] = True
+    log(f"BufRecvStream::poll_read: {len(outs)} paths")
+    return viols, {"states": len(outs), "queries": ex.queries + queries, "solver_s": ex.solver_s, "witness": wit, "functions": sorted(ex.functions_used)}
+
+
+_check_three = check
+
+
+def check(L, tier, log, samples):
+    v1, s1 = _check_three(L, tier, log, samples)
+    v2, s2 = check_poll_read(L, tier, log, samples)
+    s1["states"] += s2["states"]
+    s1["queries"] += s2["queries"]
+    s1["transitions"] = s1["queries"]
+    s1["solver_s"] = round(s1["solver_s"] + s2["solver_s"], 2)
+    s1["witness"].update({"poll_read." + k: v for k, v in s2["witness"].items()})
+    s1["functions"] = sorted(set(s1["functions"]) | set(s2["functions"]))
+    return v1 + v2, s1
+
+
+_replay_three = replay_args
+
+
+def replay_args(v):
+    if v["key"].startswith("c07.poll_read."):
+        code = v.get("model", {}).get("reset_code")
+        return ("c07_reset_inside_frame", [str(code)] if code is not None else [])
+    return _replay_three(v)
